@@ -1694,6 +1694,7 @@ func (e *Exec) assumeReliesOf(st, pre *State, cb string, own map[string]bool, po
 				t := e.evalSpec(st, rl)
 				e.specOld = saved
 				e.assume(st, t)
+				e.Assumed["rely clause ["+rl.Label+"] of "+fullFuncName(impl)+" (registered for callback "+cb+") used at a call that may invoke the callback; it is proved on that function as post/"+rl.Label+" and lemma/"+rl.Label+"/reflexive|transitive"] = true
 			}
 		}
 	}
